@@ -705,6 +705,9 @@ class ReceivableProtocol(Protocol):
         # Reserved
         # Licensed under the Python Software Foundation License.
         # TODO: see if buffer is more efficient than cBytesIO.
+        if size == 0:
+            # Nothing to read, e.g. the empty payload of a "0004" pkt-line.
+            return b""
         assert size > 0
 
         # Our use of BytesIO rather than lists of string objects returned by
